@@ -128,7 +128,7 @@ package syncer
 //@   loop 0 invariant every_dbi_captured: ghost_loc_pending == 0
 //@   at_call syncer.(*Syncer).readDBI#0 assert raw_application_dbi: !hasPrefix(arg2, "_sync") && arg4
 //@   at_call syncer.NewNativeIterator#0 assert stamps_detection_time: arg3 == tsNano && uint64(arg4) == ghost_curTxn && arg0 == snapshot.CurrentFormatVersion
-//@   at_call lmdb.(*Txn).OpenDBI#1 assert shadow_target: hasPrefix(arg1, "_sync_shadow_") && arg2 & 262144 != 0 && arg2 &^ (262144 | 8) == 0
+//@   at_call lmdb.(*Txn).OpenDBI#1 assert shadow_target: hasPrefix(arg1, "_sync_shadow_") && arg2 == 262144 | (dbiFlags & 8)
 //@   ensures all_captured: r0 == nil ==> ghost_loc_pending == 0
 //@   ensures captured: r0 == nil ==> ghost_uncap == 18446744073709551615
 //@   ensures dirty_only_set: ghost_dirty == old(ghost_dirty) || ghost_dirty == 1
